@@ -113,7 +113,9 @@ def run(tier, seed, mutant=None, only_validate=False):
             else:
                 e = t["ev"][got[0] - 1]
                 res.violations.append(dict(
-                    property="C15", engine="atopo", clause=e["ev"],
+                    # (an emission is validated by SyncFlow's data-flow step over the graph as it is now: a deviation there is
+                    # a deviation from the dataflow semantics of the pipeline as well)
+                    property="C15", engine="atopo", clause=e["ev"], also=["C01"] if e["ev"] == "emit" else [],
                     what="graph %s, operations %s: operation #%d %s(%s, %s) raised=%s %s -- links / liveness / combiner state / deliveries "
                          "differ from Topology.tla" % (t["name"], ops[:got[0]], got[0], e["ev"], e["a"], e["b"], e["raised"], e.get("exc", "")),
                     signature=dict(kind="trace", event=e["ev"], raised=e["raised"],
